@@ -149,7 +149,12 @@ impl Node {
                 let _ = write!(out, " var{{{}}}", var.verif_dump());
             }
             Kind::MapRef(m) => {
-                let _ = write!(out, " did_change={}", m.did_change.get() as u8);
+                let _ = write!(
+                    out,
+                    " did_change={} missed={}",
+                    m.did_change.get() as u8,
+                    m.missed_changes.get() as u8
+                );
             }
             Kind::BindLhsChange { bind } | Kind::BindMain { bind, .. } => {
                 out.push_str(" bind{lhs=");
